@@ -834,7 +834,7 @@ func (ex *Exec) mapDelete(m *MapV, k Value) {
 func (ex *Exec) lookup(in *ssa.Lookup, x, k Value) Value {
 	switch xv := x.(type) {
 	case *StrV:
-		i := ex.to64(k.(*Term))
+		i := ex.toIndex(k.(*Term), isSigned(in.Index.Type()))
 		idx := ex.checkIndex(i, ex.i64(int64(len(xv.b))))
 		return xv.b[idx]
 	case *MapV:
